@@ -100,6 +100,14 @@ fn main() {
         plan_stream(&a);
         return;
     }
+    if a.stream == "compactopt" {
+        compactopt_stream(&a);
+        return;
+    }
+    if a.stream == "flushcompact" {
+        flushcompact_stream(&a);
+        return;
+    }
     let (crashes, immut) = match a.stream.as_str() {
         "compact" => (false, false),
         "compactcrash" => (true, false),
@@ -462,6 +470,209 @@ pub fn plan_stream(a: &snel_harness::out::Args) {
                 let class = if !no_overflow { "allocator-offset-runs-past-level-span" } else { "-" };
                 st.oracle_fail(i, class, &format!("{d}; {op}"))
             }
+        }
+    }
+    st.finish();
+}
+
+/// C05, oracle-only: populations with an OPTIONAL field that some segments carry and others do not
+/// (a segment flushed from events none of which has the field has no column files for it). A
+/// compaction round over such inputs may succeed or fail; either way every answer must be what it
+/// was before the round, also after a restart ("if a compaction run fails … the previous answers
+/// still hold").
+pub fn compactopt_stream(a: &snel_harness::out::Args) {
+    use serde_json::json;
+    use snel_harness::sys::Session;
+    let mut st = Stream::create(&a.out, "compactopt");
+    for i in 0..a.cases {
+        if a.only.is_some_and(|o| o != i) {
+            continue;
+        }
+        let mut r = Rng::for_case(a.seed, "compactopt", i);
+        let cfg = SysCfg {
+            event_per_zone: 1 + r.below(2) as usize,
+            fill_factor: 1 + r.below(2) as usize,
+            segments_per_merge: 2 + r.below(2) as usize,
+            ..Default::default()
+        };
+        let cap = cfg.capacity() as u64;
+        let root = a.out.join(format!("compactopt-{i}"));
+        let _ = std::fs::remove_dir_all(&root);
+        let mut s = Session::start(&root, &cfg);
+        assert!(s.cmd("DEFINE ev0 FIELDS { k: \"int\", note: \"string | null\" }").map(|x| x.ok()).unwrap_or(false));
+        let nseg = cfg.segments_per_merge as u64 + r.below(4);
+        let mut k = 0u64;
+        let mut with_note = vec![];
+        for _ in 0..nseg {
+            // a whole segment with the field, without it, or mixed
+            let mode = r.below(3);
+            for _ in 0..cap {
+                k += 1;
+                let has = match mode { 0 => false, 1 => true, _ => r.below(2) == 0 };
+                let payload = if has { format!("{{\"k\":{k},\"note\":\"n{k}\"}}") } else { format!("{{\"k\":{k}}}") };
+                assert!(s.cmd(&format!("STORE ev0 FOR c{} PAYLOAD {payload}", r.below(3))).map(|x| x.ok()).unwrap_or(false));
+                if has { with_note.push(k); }
+            }
+            s.ctl(json!({"ctl": "await_flush"}));
+        }
+        let read = |s: &mut Session| -> String {
+            let mut out = vec![];
+            for q in ["QUERY ev0 RETURN [k, note]".to_string(), "QUERY ev0 FOR c0 RETURN [k]".to_string(), "QUERY ev0 FOR c1 RETURN [k]".to_string(), format!("QUERY ev0 WHERE k >= {} RETURN [k]", k / 2)] {
+                let r = s.cmd(&q).expect("query");
+                let mut rows: Vec<String> = (0..r.rows.len()).map(|j| {
+                    let kk = r.col("k").get(j).map(|v| v.to_string()).unwrap_or_default();
+                    let nn = r.col("note").get(j).map(|v| v.to_string()).unwrap_or_default();
+                    format!("{kk}:{nn}")
+                }).collect();
+                rows.sort();
+                out.push(format!("[{}] {}", r.status_class(), rows.join(",")));
+            }
+            out.join(" | ")
+        };
+        let before = read(&mut s);
+        let mut fail: Option<String> = None;
+        let mut outcomes = vec![];
+        let rounds = 1 + r.below(3);
+        for round in 0..rounds {
+            let v = s.compact(0);
+            let ok = v.as_ref().map(|v| v["ok"].as_bool().unwrap_or(false)).unwrap_or(false);
+            outcomes.push(if ok { "ok" } else { "err" });
+            std::thread::sleep(std::time::Duration::from_millis(150));
+            let after = read(&mut s);
+            if after != before && fail.is_none() {
+                fail = Some(format!("round {round} ({}) changed the answers: before [{before}] after [{after}]", if ok { "succeeded" } else { "failed" }));
+            }
+        }
+        s.kill();
+        let mut s = Session::start(&root, &cfg);
+        let after = read(&mut s);
+        if after != before && fail.is_none() {
+            fail = Some(format!("after the restart that follows the rounds the answers are [{after}], before the rounds [{before}]"));
+        }
+        drop(s);
+        let _ = std::fs::remove_dir_all(&root);
+        let desc = format!("compactopt cap={cap} k={} segs={nseg} with_note={} rounds={}", cfg.segments_per_merge, with_note.len(), outcomes.join(","));
+        st.tally(if outcomes.iter().any(|o| *o == "err") { "some_round_failed" } else { "all_rounds_ok" });
+        st.tally(if with_note.is_empty() { "field_never_present" } else if with_note.len() as u64 == k { "field_always_present" } else { "field_sometimes_present" });
+        st.case(&desc, "-", true);
+        match fail {
+            None => st.oracle_ok(),
+            Some(d) => st.oracle_fail(i, "-", &format!("{d}; {desc}")),
+        }
+    }
+    st.finish();
+}
+
+/// C05 / C11, oracle-only: compaction rounds issued WHILE background flushes are running (nothing
+/// parked, nothing drained first): bursts of stores that queue several rotations, a round started
+/// at once, repeated. Judged after everything has settled and after a kill + restart (so that the
+/// known stale per-label caches of a lifetime do not matter): every live label has its
+/// directory, and the selection returns every acknowledged event exactly once.
+pub fn flushcompact_stream(a: &snel_harness::out::Args) {
+    use serde_json::json;
+    use snel_harness::sys::Session;
+    let mut st = Stream::create(&a.out, "flushcompact");
+    for i in 0..a.cases {
+        if a.only.is_some_and(|o| o != i) {
+            continue;
+        }
+        let mut r = Rng::for_case(a.seed, "flushcompact", i);
+        let cfg = SysCfg {
+            event_per_zone: 1 + r.below(2) as usize,
+            fill_factor: 1 + r.below(2) as usize,
+            segments_per_merge: 2 + r.below(2) as usize,
+            ..Default::default()
+        };
+        let cap = cfg.capacity() as u64;
+        let root = a.out.join(format!("flushcompact-{i}"));
+        let _ = std::fs::remove_dir_all(&root);
+        let mut s = Session::start(&root, &cfg);
+        assert!(s.cmd("DEFINE ev0 FIELDS { k: \"int\" }").map(|x| x.ok()).unwrap_or(false));
+        let mut k = 0u64;
+        let mut rounds_ran = 0u64;
+        let mut rounds_failed = 0u64;
+        let bursts = 3 + r.below(5);
+        let mut fail: Option<String> = None;
+        for _ in 0..bursts {
+            let n = cap * (2 + r.below(6)) + r.below(cap);
+            for _ in 0..n {
+                k += 1;
+                assert!(s.cmd(&format!("STORE ev0 FOR c{} PAYLOAD {{\"k\":{k}}}", r.below(3))).map(|x| x.ok()).unwrap_or(false));
+            }
+            // a round while flushes of this burst are still queued or running
+            std::thread::sleep(std::time::Duration::from_millis(r.below(90)));
+            for _ in 0..(1 + r.below(2)) {
+                let v = s.compact(0);
+                match v.as_ref().and_then(|v| v["ok"].as_bool()) {
+                    Some(true) => { if v.as_ref().and_then(|v| v["ran"].as_bool()).unwrap_or(false) { rounds_ran += 1; } }
+                    // a round may fail (C05: then the previous answers still hold); what is judged
+                    // is the state afterwards
+                    Some(false) => { rounds_failed += 1; }
+                    None => { fail.get_or_insert("the engine did not answer a compaction request".to_string()); }
+                }
+            }
+        }
+        s.ctl(json!({"ctl": "await_flush"}));
+        let _ = s.compact(0);
+        // let the asynchronous reclaim finish
+        let t0 = std::time::Instant::now();
+        while s.shard_data_dir(0).join(".reclaim").read_dir().map(|d| d.count()).unwrap_or(0) > 0 && t0.elapsed().as_millis() < 4000 {
+            std::thread::sleep(std::time::Duration::from_millis(10));
+        }
+        std::thread::sleep(std::time::Duration::from_millis(200));
+        let live: Vec<String> = s.ctl(json!({"ctl": "live", "shard": 0}))
+            .and_then(|v| v["live"].as_array().map(|a| a.iter().filter_map(|x| x.as_str().map(|s| s.to_string())).collect()))
+            .unwrap_or_default();
+        let dirs = list_dirs(&s.shard_data_dir(0));
+        for l in &live {
+            if dirs.get(l).map(|fp| fp.is_empty()).unwrap_or(true) {
+                fail.get_or_insert(format!("the live list names {l}, which has no files (live {live:?}, directories {:?})", dirs.keys().collect::<Vec<_>>()));
+            }
+        }
+        let mut dup = live.clone();
+        dup.sort();
+        dup.dedup();
+        if dup.len() != live.len() {
+            fail.get_or_insert(format!("the live list names a segment twice: {live:?}"));
+        }
+        s.kill();
+        let mut s = Session::start(&root, &cfg);
+        let q = s.cmd("QUERY ev0 RETURN [k]").expect("query");
+        let mut got: Vec<u64> = q.col("k").iter().filter_map(|v| v.as_u64()).collect();
+        got.sort();
+        let want: Vec<u64> = (1..=k).collect();
+        if got != want {
+            let missing: Vec<u64> = want.iter().copied().filter(|x| !got.contains(x)).collect();
+            // how stable is the wrong answer? ask again, twice
+            let mut again = vec![];
+            for _ in 0..2 {
+                let q2 = s.cmd("QUERY ev0 RETURN [k]").expect("query");
+                again.push(q2.col("k").len());
+            }
+            fail.get_or_insert(format!("after the restart {} of {k} acknowledged events are missing (first: {:?}; the same query again returns {again:?} rows; raw reply {} bytes, row_count {:?}); live before the kill {live:?}", missing.len(), &missing[..missing.len().min(8)], q.raw.len(), q.row_count));
+        }
+        let live2: Vec<String> = s.ctl(json!({"ctl": "live", "shard": 0}))
+            .and_then(|v| v["live"].as_array().map(|a| a.iter().filter_map(|x| x.as_str().map(|s| s.to_string())).collect()))
+            .unwrap_or_default();
+        let mut l1 = live.clone();
+        l1.sort();
+        let mut l2 = live2.clone();
+        l2.sort();
+        if l1 != l2 {
+            fail.get_or_insert(format!("the live list before the kill {l1:?} differs from what the restart serves {l2:?} (index and live list disagreed)"));
+        }
+        drop(s);
+        if std::env::var("KEEP").is_err() {
+            let _ = std::fs::remove_dir_all(&root);
+        }
+        let desc = format!("flushcompact cap={cap} k={} bursts={bursts} stores={k} rounds_ran={rounds_ran}", cfg.segments_per_merge);
+        st.tally_n("rounds_ran", rounds_ran);
+        st.tally_n("rounds_failed", rounds_failed);
+        st.tally_n("stores", k);
+        st.case(&desc, "-", rounds_ran > 0);
+        match fail {
+            None => st.oracle_ok(),
+            Some(d) => st.oracle_fail(i, "-", &format!("{d}; {desc}")),
         }
     }
     st.finish();
